@@ -385,6 +385,18 @@ def run(ctx, ck):
                         continue        # padding
                 except ValueError:
                     pass
+                # a value read through a small property that is not itself one of the named quantities
+                # (`self.pulse_no` returning `self.idx + 1`) is the property's expression
+                for _i in range(3):
+                    if norm(u_) in labels[lab[0]] or not (isinstance(u_, ast.Attribute) and norm(u_.value) == 'self'):
+                        break
+                    g_ = m.resolve_method(src_w.cls.name, u_.attr)
+                    b_ = [x_ for x_ in g_.body()] if g_ is not None and g_.kind == 'property' else []
+                    b_ = [x_ for x_ in b_ if not (isinstance(x_, ast.Expr) and isinstance(x_.value, ast.Constant))]
+                    if len(b_) == 1 and isinstance(b_[0], ast.Return) and b_[0].value is not None:
+                        u_ = b_[0].value
+                    else:
+                        break
                 vals_.append(canon_k(norm(u_)))
             prev = got_lab.get(lab[0])
             if prev is None or prev[0] == labels[lab[0]]:
